@@ -181,7 +181,7 @@ Proof.
     match goal with |- context [commit_transaction ?a ?b ?c ?d ?e ?g ?h] => destruct (commit_transaction a b c d e g h) as [s2 [r|]] eqn:E end; cbn [outcome_state].
     + pose proof (commit_some _ _ _ _ _ _ _ _ _ E) as (_ & _ & _ & _ & _ & _ & _ & _ & _ & _ & _ & _ & _ & Ha & Hh & _). rewrite Ha, Hh. exact HC.
     + pose proof (commit_none _ _ _ _ _ _ _ _ E) as (_ & _ & _ & Ha & Hh & _). rewrite Ha, Hh. exact HC.
-  - rewrite Fh. pose proof (upsert_account_acur now (s_accounts s) (s_ahist s) a md None None None t Hnow) as G.
+  - rewrite Fh. pose proof (upsert_account_acur now (s_accounts s) (s_ahist s) a md (Some now) None None t Hnow) as G.
     assert (Hd : forall d, @None Z = Some d -> d <= t) by (intros d Ed; discriminate Ed).
     exact (G Hd Hd HC).
   - destruct (find_tx (s_txs s) id) as [x|]; [|exact HC]. destruct (mcontains (t_meta x) md); simpl; exact HC.
@@ -254,7 +254,7 @@ Proof.
     + pose proof (commit_none _ _ _ _ _ _ _ _ E) as (_ & _ & _ & _ & Hh & _). apply ahist_ext_same. exact Hh.
   - unfold ahist_ext, with_accounts. cbn [s_ahist].
     assert (Hd : forall d, @None Z = Some d -> t < d) by (intros d Ed; discriminate Ed).
-    exact (upsert_account_ext (f_acc_hist f) now (s_accounts s) (s_ahist s) a md None None None t Hnow Hd Hd).
+    exact (upsert_account_ext (f_acc_hist f) now (s_accounts s) (s_ahist s) a md (Some now) None None t Hnow Hd Hd).
   - destruct (find_tx (s_txs s) id) as [x|]; [|apply ahist_ext_refl]. destruct (mcontains (t_meta x) md); simpl; [apply ahist_ext_refl | apply ahist_ext_same; reflexivity].
   - destruct (find_account (s_accounts s) a) as [x|]; simpl; [|apply ahist_ext_refl]. unfold ahist_ext, with_accounts. cbn [s_ahist snd].
     destruct (f_acc_hist f); [eexists; split; [reflexivity | constructor; [cbn; exact Hnow | constructor]] | exists []; rewrite app_nil_r; split; [reflexivity | constructor]].
